@@ -10,6 +10,7 @@ import (
 
 	"github.com/hashicorp/hcl-lang/schema"
 	"github.com/hashicorp/hcl/v2"
+	"github.com/zclconf/go-cty/cty"
 )
 
 type Targets []Target
@@ -36,7 +37,27 @@ func (r Targets) Less(i, j int) bool {
 	if iLocal != jLocal {
 		return iLocal < jLocal
 	}
-	return r[i].Addr.String() < r[j].Addr.String()
+	iAddr, jAddr := r[i].Addr.String(), r[j].Addr.String()
+	if iAddr != jAddr {
+		return iAddr < jAddr
+	}
+
+	// Targets of the same address (e.g. an attribute collected both as
+	// a reference and as a typed value) are ordered by position and then
+	// with the type-less target first, such that the result does not
+	// depend on the order in which the targets were collected.
+	iByte, jByte := rangeStartByte(r[i].RangePtr), rangeStartByte(r[j].RangePtr)
+	if iByte != jByte {
+		return iByte < jByte
+	}
+	return r[i].Type == cty.NilType && r[j].Type != cty.NilType
+}
+
+func rangeStartByte(rng *hcl.Range) int {
+	if rng == nil {
+		return -1
+	}
+	return rng.Start.Byte
 }
 
 func (r Targets) Swap(i, j int) {
